@@ -716,6 +716,7 @@ pub fn build(quick: bool) -> Check {
     families.push(Box::new(KindWalks { depth: if quick { 5 } else { 6 }, core: true }));
     families.push(Box::new(KindWalks { depth: if quick { 6 } else { 7 }, core: true }));
     families.push(Box::new(super::soak::Soak { label: "all-mixes", lens: super::soak::lens(quick), mixes: super::soak::MIXES.to_vec(), opts: super::soak::opts_all().into_iter().filter(|o| o.1.seq_stride != 0).collect(), big: super::soak::big_default(quick).into_iter().filter(|b| [1usize, 2].contains(&b.2)).map(|(n, m, o)| (n, m, o - 1)).collect() }));
+    families.push(Box::new(super::soak::QuietRuns { max_n: if quick { 600 } else { 1300 }, ends_in_completion: false }));
     families.push(Box::new(Fragmented {
         firsts: if quick { vec![0, 254] } else { vec![0, 1, 253, 254, 255] },
         nfrag: if quick { vec![2, 3] } else { vec![2, 3, 4] },
@@ -735,6 +736,6 @@ pub fn build(quick: bool) -> Check {
         exhaustive: true,
         caps_hit: vec![],
         families,
-        required: vec!["one_short_write_runs", "requests_of_three_or_more_packets", "soak_sessions", "kind_history_cases", "kind_walks", "request_id_255", "replies_wrapping_past_255", "fragmented_requests", "large_response_messages", "bulky_responses"],
+        required: vec!["one_short_write_runs", "requests_of_three_or_more_packets", "soak_sessions", "quiet_runs", "kind_history_cases", "kind_walks", "request_id_255", "replies_wrapping_past_255", "fragmented_requests", "large_response_messages", "bulky_responses"],
     }
 }
